@@ -9,7 +9,9 @@ SIGMA = ['a', 'B', ' ', 'é', 'ß', 'İ', 'K', '中', '\U0001F600', '̆', '\n'
 SUB6 = ['a', 'B', 'é', '中', '\U0001F600', '̆']
 LONG = ['aaa', 'aaaa', 'abab', 'ababab', 'hello world', 'héllo wörld', 'abcdefghij', 'aéaéa',
         '中中中', '  a b  ', '\n a\n', 'a,b,,c', ',a,', ',,', 'xaax', '\U0001F600a\U0001F600',
-        'İxİ', 'Straße', 'aBé中\U0001F600̆ \nßİK', 'mississippi']
+        'İxİ', 'Straße', 'aBé中\U0001F600̆ \nßİK', 'mississippi',
+        # titlecase letters (neither upper nor lower, with both mappings), alone and next to letters of either case; final sigma; ligatures
+        '\u01c5', '\u1f88', '\u01c5a', 'A\u01c5', '\u1f88\u1f88', 'x\u01c8y', '\u01f2', '\u0391\u03a3', '\ufb01', '\u0149', '\u01f0']
 
 
 def strings(tier):
